@@ -79,6 +79,19 @@ Proof.
     + rewrite Hn in Hn'. injection Hn' as <-. rewrite Hp in Hp'. injection Hp' as <-. auto.
 Qed.
 
+Lemma Eff_up_inv w i n s : Eff w i s -> w_nodes w i = Some n -> n_files n = [] -> exists p, n_parent n = PElem p /\ Eff w p s.
+Proof.
+  intros H Hn Hf. destruct H as [i n' Hn' Hne | i n' p s Hn' Hf' Hp He].
+  - rewrite Hn in Hn'. injection Hn' as <-. contradiction.
+  - rewrite Hn in Hn'. injection Hn' as <-. eauto.
+Qed.
+Lemma Eff_local_inv w i n s : Eff w i s -> w_nodes w i = Some n -> n_files n <> [] -> s = n_files n.
+Proof.
+  intros H Hn Hf. destruct H as [i n' Hn' Hne | i n' p s Hn' Hf' Hp He].
+  - rewrite Hn in Hn'. injection Hn' as <-. reflexivity.
+  - rewrite Hn in Hn'. injection Hn' as <-. contradiction.
+Qed.
+
 Lemma Eff_nonempty w i s : Eff w i s -> s <> [].
 Proof. induction 1; auto. Qed.
 
